@@ -66,5 +66,29 @@ pub fn gen(tier: &str, seed: u64) -> Vec<String> {
             lines.push(mk_kline("KAN", false, &cfg, &h));
         }
     }
+    // macros whose items act on the OS through custom actions (mouse button, unmod, unshift), cancelled
+    // at every millisecond of their run: by releasing the macro key, by pressing another key, by both
+    for body in ["x mlft 20 z", "x (unmod y) 20 z", "(unshift w) 5 mrgt 5 q", "S-(x mlft) 10 y"] {
+        for form in ["macro-release-cancel", "macro-cancel-on-press", "macro-release-cancel-and-cancel-on-press", "macro-repeat-release-cancel", "macro"] {
+            let cfg = format!("(defsrc a b)\n(deflayer l0 ({form} {body}) b)\n");
+            for off in 1..=12u32 {
+                // release of the macro key `off` ms after the press
+                let h = vec![KEv::L(HEv::Press(0, code("a"))), KEv::L(HEv::Tick(off)), KEv::L(HEv::Release(0, code("a"))), KEv::L(HEv::Tick(3000))];
+                lines.push(mk_kline("KAN", false, &cfg, &h));
+                // tap of the macro key, another key pressed `off` ms after the press
+                let h = vec![
+                    KEv::L(HEv::Press(0, code("a"))),
+                    KEv::L(HEv::Tick(1)),
+                    KEv::L(HEv::Release(0, code("a"))),
+                    KEv::L(HEv::Tick(off)),
+                    KEv::L(HEv::Press(0, code("b"))),
+                    KEv::L(HEv::Tick(5)),
+                    KEv::L(HEv::Release(0, code("b"))),
+                    KEv::L(HEv::Tick(3000)),
+                ];
+                lines.push(mk_kline("KAN", false, &cfg, &h));
+            }
+        }
+    }
     lines
 }
